@@ -9,6 +9,7 @@ COQ_TARGETS = ["props/C15.vo", "proofs/ConstsTie.vo"]
 THEOREMS = [("C15", ["C15_fail", "C15_built", "C15_inv", "C15_accounting", "C15_accounting_any_sink", "C15_flush", "C15_nopanic", "C15_parses"])]
 PROOF_FILES = ["proofs/ContainerProofs.v", "proofs/ContainerFinal.v", "proofs/SerContractProofs.v", "proofs/VectoredWriteProofs.v", "props/C15.v"]
 TRUSTED_BASE = [
+    "sink refusals (lib/cont.py refusal_runs / judge_refusals): one zero-length write or hard error (plain or of a named std::io::ErrorKind -- harness sink answer (h KIND); the model has ONE hard answer, VectoredWrite.Hard, for all kinds other than Interrupted) at a call index of a block flush, then a working sink, under a caller that keeps using the writer. What every later call returns and what the sink holds is Container.wrun under the same schedule (flush_finished keeps w_pending and the buffer on the error path: the block is re-sent from its start) -- compared for the null codec. The verdict on a CLEAN refusal (no byte of the block accepted) is a Python-side reading of the property, stated here: every later call that returns Ok leaves a file the extracted reference parser accepts, whose blocks (independent decoders) hold exactly the encodings of the values they announce, a prefix of the values (all after finish_block / into_inner / drop); the value of the refused serialize call itself may or may not be counted (the model keeps it)",
     "Coq 8.16.1 kernel; no axioms (Print Assumptions: closed); no native_compute",
     "extraction (ExtrOcamlBasic only) + ocaml/driver.ml (parsing/printing); Rust harness avrodrive",
     "hand-written model/Container.v of writer/mod.rs (wstate: buffer, count, pending block, sink, schedule, pools) tied by the correspondence run (null codec: per-call outcomes, sink lengths, bytes; on the accept-everything sink and under partial-write / interruption schedules, the harness' scheduled sink being the machine of VectoredWrite.next_ans/available)",
@@ -251,6 +252,29 @@ def run(ctx):
         else:
             diffs.append({"impl_case": clip(r["line"]), "what": "the sink after call %d differs from the accept-everything sink's at the same call (both valid files) under %s" % (oi, sink_kind)})
     n_sched = len(sruns) + sum(1 for r in sruns if r["rm"] is not None) + 2 * len(q_lines)
+    # ---- a sink that refuses ONE write of a block flush (zero-length write / hard error of some kind) and then works again, under a
+    # caller that goes on using the writer (finish_block retried, more values, into_inner / drop): the finished block stays pending
+    # and is re-sent; after a clean refusal (no byte of the block accepted) every later call that returns Ok is a quiescent point
+    rcases = []
+    for _ in range(40 if ctx["tier"] == "quick" else 800):
+        h = cont.History(rng, n_values=rng.choice([1, 2, 3, 5]))
+        h.prepare()
+        rops, rexp = cont.retry_ops(rng, h)
+        c = rng.choice(cont.CODECS) if rng.random() < 0.4 else "null"
+        rcases.append({"h": h, "ops": rops, "codec": c, "bsz": rng.choice([0, 0, 1, 5, 16, 64, 65536]), "meta": [],
+                       "start": rng.choice([None, 1, 64]) if cont.codec_family(c) in cont.LOOP_FAMILIES else None})
+    for c, r in zip(rcases, C.run_parallel(C.AVRODRIVE, ["freeze " + c["h"].schema for c in rcases])):
+        c["json"] = C.unhex(C.parse_sx(r)[0][2])
+    rbl = [cont.with_start(c["start"], cont.cw_line(c["h"], c["codec"], c["bsz"], "vec", [], c["ops"])) for c in rcases]
+    for c, bl, r in zip(rcases, rbl, C.run_parallel(C.AVRODRIVE, rbl)):
+        c["bp"] = cont.parse_cw(r)
+        if c["bp"] is None or c["bp"].get("build_err") or any(res != "ok" for res, _ in c["bp"]["ops"]):
+            violations.append({"impl_case": clip(bl), "what": "a history of conforming values failed on a Vec sink", "impl": r[:300]})
+            c["bp"] = None
+    rcases = [c for c in rcases if c["bp"] is not None]
+    rruns = cont.refusal_runs(rng, rcases, n_bases=3)
+    n_sched += len(rbl) + len(rruns) + sum(1 for r in rruns if r["rm"] is not None)
+    n_sched += cont.judge_refusals(rruns, rcases, violations, diffs, dist, surfaces=False, clip=clip)
     violations.sort(key=lambda v: len(v.get("impl_case", "")))      # the smallest reproducing inputs first
     return {"evaluations": len(impl_lines) + len(model_lines) + len(snap_lines) + len(parse_lines) + n_sched, "distinct_nontrivial": len(nontrivial),
             "rule": "histories over {serialize ok, serialize failing at some depth, push pre-serialized, finish_block, into_inner, drop} x "
@@ -267,5 +291,9 @@ def run(ctx):
                     "per call, gathering or default write_vectored, k chosen against the blocks' header/data lengths, irregular sizes; 'interrupted' at call indexes of block "
                     "flushes -- first call, after partial progress, last, bursts up to 40, every call once / twice): every call's outcome and the sink after it = those on the "
                     "accept-everything sink (whose snapshots are the ones judged), and = the writer model under the same schedule (null codec); any snapshot that differs is read "
-                    "back and parsed on its own",
+                    "back and parsed on its own; histories whose caller goes on after every call (finish_block retried, more values, into_inner / drop) under sinks that "
+                    "refuse ONE write of a block flush (zero-length write or a hard error of some kind; first sink call of the flush, second, last, random) and then work again: "
+                    "after a clean refusal (no byte of the block accepted) every later call that returns Ok leaves a valid file (reference parser + independent decoders + crate's "
+                    "reader) holding a prefix of the values -- all of them after finish_block / into_inner / drop --, each block's data = the encodings of the values it announces; "
+                    "writer model under the same schedule (null codec): every later call's outcome and the sink bytes",
             "samples": samples, "violations": violations, "model_diffs": diffs, "distribution": dict(dist)}
